@@ -230,6 +230,7 @@ type env struct {
 	ntConc     bool
 	ntPaged    bool
 	firstKnown *evid.Violation
+	explained  bool // the violation just returned is completely explained by one specific root cause
 }
 
 func (e *env) class(s string) { e.classes[s] = true }
@@ -922,102 +923,135 @@ func own(sym string, isOwn bool) string {
 	return "other-" + sym
 }
 
-// ---- root-cause attribution for layouts -----------------------------------------
+// ---- known root causes on layouts: narrow allowances ---------------------------------
+//
+// A step is always judged against the strict model first. Only when that fails AND
+// the raw index before the step shows the trigger of one specific root cause is the
+// step judged a second time against a model that contains exactly what that root
+// cause explains (nothing else is relaxed: result, tag list, head/get of every tag
+// and digest and raw storage are all verified against it). If that verification
+// passes completely the finding carries the root cause's signature and the history
+// goes on from that model; otherwise the strict violation is reported under its own
+// signature and is never folded into a known finding.
 
-// diagnose names the root cause of a violation seen after step st on a layout when
-// the raw index before / after shows one of the specific write-path behaviours;
-// otherwise the generic signature stays. exact = pre and post are the states
-// immediately around st alone (false for a batch that ran concurrently, where the
-// intermediate states are not observable).
-func diagnose(st Step, pre, post rawIndex, exact bool, v *evid.Violation) *evid.Violation {
-	switch {
-	case st.Op == "put" && st.ByDigest:
-		if exact && st.Src != "" && pre.tagged() != post.tagged() {
-			return evid.V("layout-digest-push-adds-tagged-entry", "%s changed the tagged entries of index.json from %s to %s (a manifest object fetched from a tagged reference carries the "+
-				"org.opencontainers.image.ref.name annotation of its source index entry in its descriptor, and a push by digest keeps it) — then: %s", describe(st), pre, post, v.Msg)
-		}
-	case (st.Op == "put" && !st.ByDigest) || st.Op == "tagdel":
-		t := Tags[st.Tag]
-		fullPre, fullPost, barePre, barePost := 0, 0, 0, 0
-		for _, en := range pre.forTag(t) {
-			if en.Full {
-				fullPre++
-			} else {
-				barePre++
-			}
-		}
-		for _, en := range post.forTag(t) {
-			if en.Full {
-				fullPost++
-			} else {
-				barePost++
-			}
-		}
-		// the write left every full-name entry for the tag alone (in a concurrent batch another
-		// operation may have removed some of them)
-		if fullPre > 0 && (fullPost >= fullPre || (!exact && fullPost > 0)) {
-			return evid.V("layout-fullname-entry-ignored-by-write", "%s on a layout whose index.json names the tag with a full image name (ref.name \"<name>:%s\", as other tools write it): "+
-				"the client lists and resolves that tag, but the write path matches ref.name exactly, so the entry is neither replaced nor removed; index %s -> %s — then: %s", describe(st), t, pre, post, v.Msg)
-		}
-		// (whichever way the write path matches names: entries are compared by the tag a reader sees)
-		if nPre, nPost := fullPre+barePre, fullPost+barePost; st.Op == "tagdel" && nPre >= 2 && nPost >= 1 && nPost < nPre {
-			adjacent := false
-			for i := 0; i+1 < len(pre.Entries); i++ {
-				if pre.Entries[i].Name != "" && pre.Entries[i].Tag == t && pre.Entries[i+1].Name != "" && pre.Entries[i+1].Tag == t {
-					adjacent = true
-				}
-			}
-			// in a concurrent batch another delete may have made the entries adjacent first
-			if adjacent || !exact {
-				return evid.V("layout-tagdelete-skips-adjacent-duplicate", "%s on an index with several entries for that tag removed some but not all of them (two adjacent entries: the delete inside a "+
-					"range over the same slice skips the one that slides into the freed position): index %s -> %s — then: %s", describe(st), pre, post, v.Msg)
-			}
-		}
-	}
-	return v
+const (
+	sigFullName = "layout-fullname-entry-ignored-by-write"
+	sigAdjacent = "layout-tagdelete-skips-adjacent-duplicate"
+	sigDigPush  = "layout-digest-push-adds-tagged-entry"
+)
+
+type deviation struct {
+	sig string
+	why string
+	mod *model
 }
 
-// adopt re-synchronises the model with raw storage after a known finding so that
-// the rest of the history is still searched (reading: exact ref.name first, then
-// full image names; both in index order).
-func (e *env) adopt() {
-	ri := readRawIndex(e.dir)
-	mod := newModel(true)
-	for _, t := range Tags {
-		ents := ri.forTag(t)
-		if len(ents) == 0 {
-			continue
+// pushedDigest is the digest a put step pushes in state mod.
+func pushedDigest(mod *model, s Step) string {
+	dig := pool.Mans[s.Man].Digest
+	switch s.Src {
+	case "same":
+		if d, ok := mod.tags[Tags[s.SrcTag]]; ok {
+			dig = d
 		}
-		pick := -1
-		for i, en := range ents {
-			if !en.Full {
-				pick = i
-				break
+	case "side":
+		dig = pool.Mans[s.SrcTag].Digest
+	}
+	return dig
+}
+
+func deviations(s Step, pre rawIndex, preMod *model, err error) []deviation {
+	var out []deviation
+	switch {
+	case s.Op == "put" && !s.ByDigest && err == nil:
+		// full-name entries for the tag are not replaced: they stay behind the pushed entry.
+		// What the client reports for the tag must still be the pushed manifest.
+		t := Tags[s.Tag]
+		full := []string{}
+		for _, en := range pre.forTag(t) {
+			if en.Full {
+				full = append(full, en.Digest)
 			}
 		}
-		if pick < 0 {
-			pick = 0
+		if len(full) > 0 {
+			m := preMod.clone()
+			dig := pushedDigest(preMod, s)
+			m.tags[t] = dig
+			m.shadow[t] = full
+			m.file[dig] = present
+			delete(m.untagged, dig)
+			m.settle()
+			out = append(out, deviation{sigFullName, fmt.Sprintf("%s on a layout whose index.json names the tag with a full image name (ref.name \"<name>:%s\", as other tools write it): the client lists and "+
+				"resolves that tag, but indexSet matches ref.name exactly, so the pushed entry is appended and the full-name entry stays (index %s)", describe(s), t, pre), m})
 		}
-		mod.tags[t] = ents[pick].Digest
-		for i, en := range ents {
-			if i != pick {
-				mod.shadow[t] = append(mod.shadow[t], en.Digest)
+	case s.Op == "tagdel":
+		t := Tags[s.Tag]
+		full, bare := []string{}, 0
+		for _, en := range pre.forTag(t) {
+			if en.Full {
+				full = append(full, en.Digest)
+			} else {
+				bare++
 			}
 		}
-	}
-	for _, en := range ri.Entries {
-		if en.Name == "" {
-			mod.untagged[en.Digest] = true
+		if len(full) > 0 && bare == 0 && err != nil {
+			// only full-name entries: TagDelete says not found and nothing changes
+			out = append(out, deviation{sigFullName, fmt.Sprintf("%s on a layout whose index.json names the tag only with a full image name: the client lists and resolves the tag but TagDelete matches "+
+				"ref.name exactly, answers %q and leaves it (index %s)", describe(s), err.Error(), pre), preMod.clone()})
+		}
+		if len(full) > 0 && bare > 0 && err == nil {
+			// the exact entries go, the full-name entries come back under the tag
+			m := preMod.clone()
+			delete(m.tags, t)
+			delete(m.shadow, t)
+			m.reprobe[t] = full
+			m.settle()
+			out = append(out, deviation{sigFullName, fmt.Sprintf("%s on a layout whose index.json also names the tag with a full image name: TagDelete matches ref.name exactly, removes the exact entry only and "+
+				"the tag now resolves to the full-name entry again (index %s)", describe(s), pre), m})
+		}
+		if bare >= 2 && err == nil {
+			// forward range with slices.Delete: the entry sliding into the freed position is skipped
+			l := append([]rawEntry{}, pre.Entries...)
+			n := len(l)
+			for i := 0; i < n; i++ {
+				if i < len(l) && l[i].Name == t {
+					l = append(l[:i:i], l[i+1:]...)
+				}
+			}
+			rest := []string{}
+			for _, en := range l {
+				if en.Name != "" && en.Tag == t {
+					rest = append(rest, en.Digest)
+				}
+			}
+			if len(rest) > len(full) {
+				m := preMod.clone()
+				delete(m.tags, t)
+				delete(m.shadow, t)
+				m.reprobe[t] = rest
+				m.settle()
+				out = append(out, deviation{sigAdjacent, fmt.Sprintf("%s on an index with adjacent entries for that tag removes some but not all of them (delete inside a forward range over the same "+
+					"slice skips the entry that slides into the freed position) (index %s)", describe(s), pre), m})
+			}
+		}
+	case s.Op == "put" && s.ByDigest && s.Src != "" && err == nil:
+		// the fetched object's descriptor carries ref.name of its source entry; a push by digest keeps it
+		if _, has := preMod.tags[Tags[s.SrcTag]]; s.Src == "side" || has {
+			t := Tags[s.SrcTag]
+			dig := pushedDigest(preMod, s)
+			m := preMod.clone()
+			m.file[dig] = present
+			if _, ok := m.tags[t]; ok {
+				m.shadow[t] = append(m.shadow[t], dig)
+			} else {
+				m.tags[t] = dig
+			}
+			m.settle()
+			out = append(out, deviation{sigDigPush, fmt.Sprintf("%s adds a TAGGED entry %q to index.json (a manifest object fetched from a tagged reference carries the org.opencontainers.image.ref.name "+
+				"annotation of its source index entry in its descriptor, and a push by digest keeps it) (index before %s)", describe(s), t, pre), m})
 		}
 	}
-	for _, pm := range pool.Mans {
-		if _, ok := readBlobFile(e.dir, pm.Digest); ok {
-			mod.file[pm.Digest] = present
-		}
-	}
-	mod.settle()
-	e.mod = mod
-	e.prevRaw = ri
+	return out
 }
 
 // ---- the check ------------------------------------------------------------------
@@ -1115,28 +1149,23 @@ func check(c Case, ev *evid.Collector) (viol *evid.Violation) {
 	}
 
 	for i, s := range c.Hist {
+		e.explained = false
 		v := e.step(s)
 		if v != nil && strings.HasPrefix(v.Sig, "harness-") {
 			return finish(v)
 		}
 		if v != nil {
 			v.Msg = fmt.Sprintf("step %d (%s): %s", i, describe(s), v.Msg)
-			if !ev.IsKnown(v.Sig) || !e.lay {
-				if e.firstKnown != nil && ev.IsKnown(v.Sig) {
-					return finish(e.firstKnown)
-				}
+			// only a finding that is completely explained by one known root cause (the step was
+			// re-verified against the model containing exactly that cause's effect) lets the
+			// history go on; everything else is reported at once under its own signature
+			if !(e.explained && ev.IsKnown(v.Sig)) {
 				return finish(v)
 			}
-			// a known finding: remember it, re-synchronise the model with raw storage and keep
-			// searching behind it
 			if e.firstKnown == nil {
 				e.firstKnown = v
 			}
 			e.class("outcome:continued-behind-known-finding")
-			e.adopt()
-			if sym, _ := e.verify("", ""); sym != "" {
-				return finish(e.firstKnown)
-			}
 		}
 		if isTimeout(ctx) || e.m.CapHit() {
 			return finish(nil)
@@ -1149,13 +1178,13 @@ func check(c Case, ev *evid.Collector) (viol *evid.Violation) {
 // result and verifies the whole state.
 func (e *env) step(s Step) *evid.Violation {
 	if s.Op != "batch" {
-		return e.diagnosed(s)
+		return e.plain(s)
 	}
-	if !commute(e.mod, s.Batch, e.lay) {
+	if !commute(e.mod, s.Batch, e.lay) || e.blockedByKnown(s.Batch) {
 		// made total: operations that do not commute in this state are issued one after the other
 		e.class("batch:sequential-fallback")
 		for _, b := range s.Batch {
-			if v := e.diagnosed(b); v != nil {
+			if v := e.plain(b); v != nil {
 				return v
 			}
 		}
@@ -1164,22 +1193,6 @@ func (e *env) step(s Step) *evid.Violation {
 	e.ntConc = true
 	e.class(fmt.Sprintf("batch:concurrent-%d", len(s.Batch)))
 	pre := e.mod.clone()
-	preRaw := rawIndex{}
-	if e.lay {
-		preRaw = readRawIndex(e.dir)
-	}
-	diag := func(v *evid.Violation) *evid.Violation {
-		if !e.lay || strings.HasPrefix(v.Sig, "batch:harness-") {
-			return v
-		}
-		post := readRawIndex(e.dir)
-		for _, b := range s.Batch {
-			if d := diagnose(b, preRaw, post, false, v); d != v {
-				return d
-			}
-		}
-		return v
-	}
 	res := make([]opResult, len(s.Batch))
 	var wg sync.WaitGroup
 	start := make(chan struct{})
@@ -1203,31 +1216,47 @@ func (e *env) step(s Step) *evid.Violation {
 		ex := apply(e.mod, b)
 		if res[i].viol != nil {
 			res[i].viol.Sig = "batch:" + res[i].viol.Sig
-			return diag(res[i].viol)
+			return res[i].viol
 		}
 		if v := judgeResult(b, ex, res[i].err); v != nil {
 			v.Sig = "batch:" + v.Sig
-			return diag(v)
+			return v
 		}
 	}
 	if sym, msg := e.verify("", ""); sym != "" {
-		return diag(evid.V("batch:"+sym, "after the concurrent batch: %s", msg))
+		return evid.V("batch:"+sym, "after the concurrent batch: %s", msg)
 	}
 	return nil
 }
 
-// diagnosed runs one plain step and attributes a violation on a layout to its
-// root cause where the raw index immediately before / after shows it.
-func (e *env) diagnosed(s Step) *evid.Violation {
+// blockedByKnown: while a root cause is listed as a known finding, a batch that
+// touches its trigger (a tag with a full-name entry / with several entries) is
+// issued sequentially so that each operation can be judged against the narrow
+// allowance of that cause. With the finding fixed the batch runs concurrently again.
+func (e *env) blockedByKnown(batch []Step) bool {
 	if !e.lay {
-		return e.plain(s, true)
+		return false
 	}
-	pre := readRawIndex(e.dir)
-	v := e.plain(s, true)
-	if v == nil || strings.HasPrefix(v.Sig, "harness-") {
-		return v
+	kFull, kAdj := e.ev.IsKnown(sigFullName), e.ev.IsKnown(sigAdjacent)
+	if !kFull && !kAdj {
+		return false
 	}
-	return diagnose(s, pre, readRawIndex(e.dir), true, v)
+	ri := readRawIndex(e.dir)
+	for _, b := range batch {
+		if !((b.Op == "put" && !b.ByDigest) || b.Op == "tagdel") {
+			continue
+		}
+		ents := ri.forTag(Tags[b.Tag])
+		for _, en := range ents {
+			if en.Full && kFull {
+				return true
+			}
+		}
+		if kAdj && b.Op == "tagdel" && len(ents) >= 2 {
+			return true
+		}
+	}
+	return false
 }
 
 // note records evidence classes of a step about to be applied to mod.
@@ -1291,18 +1320,16 @@ func (e *env) note(s Step, mod *model) {
 	}
 }
 
-func (e *env) plain(s Step, doVerify bool) *evid.Violation {
+func (e *env) plain(s Step) *evid.Violation {
 	e.note(s, e.mod)
+	preMod := e.mod.clone()
+	var pre rawIndex
+	if e.lay {
+		pre = readRawIndex(e.dir)
+	}
 	res := e.run(s, e.mod)
 	if res.viol != nil {
 		return res.viol
-	}
-	ex := apply(e.mod, s)
-	if v := judgeResult(s, ex, res.err); v != nil {
-		return v
-	}
-	if !doVerify {
-		return nil
 	}
 	ownTag, ownMan := "", ""
 	op := s.Op
@@ -1318,10 +1345,29 @@ func (e *env) plain(s Step, doVerify bool) *evid.Violation {
 	case "mandel":
 		ownMan = pool.Mans[s.Man].Digest
 	}
-	if sym, msg := e.verify(ownTag, ownMan); sym != "" {
-		return evid.V(op+"/"+sym, "%s", msg)
+	// strict judgement
+	strict := preMod.clone()
+	ex := apply(strict, s)
+	e.mod = strict
+	v := judgeResult(s, ex, res.err)
+	if v == nil {
+		if sym, msg := e.verify(ownTag, ownMan); sym != "" {
+			v = evid.V(op+"/"+sym, "%s", msg)
+		}
 	}
-	return nil
+	if v == nil || !e.lay {
+		return v
+	}
+	// does exactly one specific root cause explain everything that is observable?
+	for _, d := range deviations(s, pre, preMod, res.err) {
+		e.mod = d.mod
+		if sym, _ := e.verify(ownTag, ownMan); sym == "" {
+			e.explained = true
+			return evid.V(d.sig, "%s — the strict model says: %s", d.why, v.Msg)
+		}
+	}
+	e.mod = strict
+	return v
 }
 
 // ---- tests ----------------------------------------------------------------------
